@@ -86,7 +86,14 @@ pub fn literal(ids: &mut Ids, lit: Lit) -> Item {
 
 /// the name darling sees: identifiers of the path joined by `::` (leading colons ignored)
 pub fn path_string(name: &str) -> String {
-    name.trim_start_matches("::").split("::").map(|s| s.trim()).collect::<Vec<_>>().join("::")
+    // segments as they are written in the source (a keyword is written raw)
+    crate::spec::written(name.trim_start_matches("::")).split("::").map(|s| s.trim().to_string()).collect::<Vec<_>>().join("::")
+}
+
+/// the name a receiver matches its fields / variants with: the `r#` of a raw identifier is
+/// spelling, not part of the name
+pub fn name_string(name: &str) -> String {
+    path_string(name).split("::").map(|s| s.trim_start_matches("r#")).collect::<Vec<_>>().join("::")
 }
 
 #[derive(Clone, Debug, Default)]
@@ -144,11 +151,11 @@ pub fn render_item(it: &Item, out: &mut String, ranges: &mut Ranges, spacing: u8
             ranges.value.insert(it.id, (lo, out.len()));
         }
         Kind::Word => {
-            out.push_str(&it.name);
+            out.push_str(&crate::spec::written(&it.name));
             ranges.name.insert(it.id, (lo, out.len()));
         }
         Kind::Nv(l) => {
-            out.push_str(&it.name);
+            out.push_str(&crate::spec::written(&it.name));
             ranges.name.insert(it.id, (lo, out.len()));
             out.push_str(if spacing % 2 == 0 { " = " } else { "=" });
             let vlo = out.len();
@@ -169,7 +176,7 @@ pub fn render_item(it: &Item, out: &mut String, ranges: &mut Ranges, spacing: u8
             ranges.value.insert(it.id, (vlo, out.len()));
         }
         Kind::List(items) => {
-            out.push_str(&it.name);
+            out.push_str(&crate::spec::written(&it.name));
             ranges.name.insert(it.id, (lo, out.len()));
             let (o, c) = match it.delim {
                 1 => ('[', ']'),
